@@ -3,8 +3,10 @@
     Property theorems only.  Byte strings are [list N] with all elements
     below 256 ([bytes]); character strings are lists of character codes. *)
 From RsM Require Import Lib.MachInt Model.Headers Model.Codecs Model.CodecsSpec
+  Model.CodecsCheckin Model.CodecsBdx Model.CodecsBle Model.CodecsMdns
   Proofs.HeadersFacts Proofs.CodecsBase38 Proofs.CodecsManual Proofs.CodecsQr
-  Proofs.CodecsSpecFacts.
+  Proofs.CodecsSpecFacts Proofs.CodecsCheckinFacts Proofs.CodecsBdxFacts
+  Proofs.CodecsBleFacts Proofs.CodecsMdnsFacts.
 Open Scope N_scope.
 
 (** * Message header (PlainHdr) *)
@@ -234,6 +236,198 @@ Theorem C17_status_report_total : forall b : list N, no_panic (sr_decode b).
 Proof. exact sr_decode_total. Qed.
 Print Assumptions C17_status_report_total.
 
+(** * Check-In message payload (nonce || AEAD(counter || data) || MIC).
+    The primitives are symbolic: every theorem holds for all functions that
+    satisfy [aead_ideal] (13-byte nonce derivation; ideal AEAD with a 16-byte MIC). *)
+
+Theorem C17_checkin_roundtrip : forall nonce_of aead_enc aead_dec,
+  aead_ideal nonce_of aead_enc aead_dec ->
+  forall (cap : nat) (counter : N) (app p : list N),
+  counter < two32 -> bytes app -> checkin_generate nonce_of aead_enc cap counter app = Ok p ->
+  checkin_parse nonce_of aead_dec p = Ok (counter, app).
+Proof. exact checkin_roundtrip_i. Qed.
+Print Assumptions C17_checkin_roundtrip.
+
+Theorem C17_checkin_generate : forall nonce_of aead_enc aead_dec,
+  aead_ideal nonce_of aead_enc aead_dec ->
+  forall (cap : nat) (counter : N) (app : list N),
+  if Nat.ltb cap (33 + length app)
+  then checkin_generate nonce_of aead_enc cap counter app = Err E_BUF
+  else exists p, checkin_generate nonce_of aead_enc cap counter app = Ok p /\
+                 length p = (33 + length app)%nat.
+Proof. exact checkin_generate_i. Qed.
+Print Assumptions C17_checkin_generate.
+
+Theorem C17_checkin_canonical : forall nonce_of aead_enc aead_dec,
+  aead_ideal nonce_of aead_enc aead_dec ->
+  forall (p : list N) (c : N) (a : list N),
+  checkin_parse nonce_of aead_dec p = Ok (c, a) ->
+  c < two32 /\ bytes a /\ checkin_generate nonce_of aead_enc (length p) c a = Ok p.
+Proof. exact checkin_canonical_i. Qed.
+Print Assumptions C17_checkin_canonical.
+
+Theorem C17_checkin_total : forall nonce_of aead_enc aead_dec,
+  aead_ideal nonce_of aead_enc aead_dec ->
+  forall p : list N, no_panic (checkin_parse nonce_of aead_dec p).
+Proof. exact checkin_total_i. Qed.
+Print Assumptions C17_checkin_total.
+
+(** * BDX message bodies *)
+
+Theorem C17_bdx_init_roundtrip : forall m : bdx_init,
+  init_wf m = true -> init_decode (init_encode m) = Ok m.
+Proof. exact init_roundtrip. Qed.
+Print Assumptions C17_bdx_init_roundtrip.
+
+(** accepted bytes = two flag bytes (reserved bits ignored) then exactly the encoding of the result *)
+Theorem C17_bdx_init_accepted : forall (b : list N) (m : bdx_init),
+  bytes b -> init_decode b = Ok m ->
+  init_wf m = true /\
+  exists tcb rcb, b = tcb :: rcb :: skipn 2 (init_encode m) /\
+                  tc_of_byte tcb = i_tc m /\ rc_of_byte rcb = i_rc m.
+Proof. exact init_decode_inv. Qed.
+Print Assumptions C17_bdx_init_accepted.
+
+Theorem C17_bdx_init_total : forall b : list N, no_panic (init_decode b).
+Proof. exact init_decode_total. Qed.
+Print Assumptions C17_bdx_init_total.
+
+Theorem C17_bdx_accept_roundtrip : forall m : bdx_accept,
+  accept_wf m = true -> accept_decode (a_receive m) (accept_encode m) = Ok m.
+Proof. exact accept_roundtrip. Qed.
+Print Assumptions C17_bdx_accept_roundtrip.
+
+Theorem C17_bdx_accept_accepted : forall (receive : bool) (b : list N) (m : bdx_accept),
+  bytes b -> accept_decode receive b = Ok m ->
+  accept_wf m = true /\ a_receive m = receive /\
+  exists tcb, tc_of_byte tcb = a_tc m /\
+    (if receive then exists rcb, rc_of_byte rcb = a_rc m /\
+                                 b = tcb :: rcb :: skipn 2 (accept_encode m)
+     else b = tcb :: skipn 1 (accept_encode m)).
+Proof. exact accept_decode_inv. Qed.
+Print Assumptions C17_bdx_accept_accepted.
+
+Theorem C17_bdx_accept_total : forall (receive : bool) (b : list N),
+  no_panic (accept_decode receive b).
+Proof. exact accept_decode_total. Qed.
+Print Assumptions C17_bdx_accept_total.
+
+Theorem C17_bdx_block_roundtrip : forall (ctr : N) (data : list N),
+  ctr < two32 -> block_decode (block_encode ctr data) = Ok (ctr, data).
+Proof. exact block_roundtrip. Qed.
+Print Assumptions C17_bdx_block_roundtrip.
+
+Theorem C17_bdx_block_canonical : forall (b : list N) (ctr : N) (data : list N),
+  bytes b -> block_decode b = Ok (ctr, data) ->
+  b = block_encode ctr data /\ ctr < two32 /\ bytes data.
+Proof. exact block_decode_canonical. Qed.
+Print Assumptions C17_bdx_block_canonical.
+
+Theorem C17_bdx_query_roundtrip : forall (ctr : N) (trailing : list N),
+  ctr < two32 -> query_decode (query_encode ctr ++ trailing) = Ok ctr.
+Proof. exact query_roundtrip. Qed.
+Print Assumptions C17_bdx_query_roundtrip.
+
+Theorem C17_bdx_query_accepted : forall (b : list N) (ctr : N),
+  bytes b -> query_decode b = Ok ctr -> ctr < two32 /\ firstn 4 b = query_encode ctr.
+Proof. exact query_decode_inv. Qed.
+Print Assumptions C17_bdx_query_accepted.
+
+Theorem C17_bdx_skip_roundtrip : forall (ctr skip : N) (trailing : list N),
+  ctr < two32 -> skip < two64 ->
+  skip_decode (skip_encode ctr skip ++ trailing) = Ok (ctr, skip).
+Proof. exact skip_roundtrip. Qed.
+Print Assumptions C17_bdx_skip_roundtrip.
+
+Theorem C17_bdx_skip_accepted : forall (b : list N) (ctr skip : N),
+  bytes b -> skip_decode b = Ok (ctr, skip) ->
+  ctr < two32 /\ skip < two64 /\ firstn 12 b = skip_encode ctr skip.
+Proof. exact skip_decode_inv. Qed.
+Print Assumptions C17_bdx_skip_accepted.
+
+Theorem C17_bdx_small_total : forall b : list N,
+  no_panic (block_decode b) /\ no_panic (query_decode b) /\ no_panic (skip_decode b).
+Proof.
+  intro b. split; [apply block_decode_total|split; [apply query_decode_total|apply skip_decode_total]].
+Qed.
+Print Assumptions C17_bdx_small_total.
+
+(** * BLE advertisement payloads (the parsers return an option: they have no
+    failing slice access left in the model, [ad_find]/[nth] are total) *)
+
+Theorem C17_ble_adv_roundtrip : forall a : adv,
+  adv_valid a = true ->
+  adv_parse (adv_encode a) = Some a /\ adv_parse_service (adv_payload a) = Some a.
+Proof. intros a H. split; [apply adv_roundtrip|apply adv_service_roundtrip]; exact H. Qed.
+Print Assumptions C17_ble_adv_roundtrip.
+
+Theorem C17_ble_recovery_roundtrip : forall r : radv,
+  radv_valid r = true ->
+  radv_parse (radv_encode r) = Some r /\ radv_parse_service (radv_payload r) = Some r.
+Proof. intros r H. split; [apply radv_roundtrip|apply radv_service_roundtrip]; exact H. Qed.
+Print Assumptions C17_ble_recovery_roundtrip.
+
+Theorem C17_ble_accepted_in_range : forall (advb : list N),
+  bytes advb ->
+  (forall a, adv_parse advb = Some a -> adv_valid a = true) /\
+  (forall r, radv_parse advb = Some r -> radv_valid r = true) /\
+  (forall a, adv_parse advb = Some a -> radv_parse advb = None).
+Proof.
+  intros advb Hb. split; [|split].
+  - intros a H. exact (adv_parse_valid _ _ Hb H).
+  - intros r H. exact (radv_parse_valid _ _ Hb H).
+  - intros a H. exact (adv_radv_disjoint _ _ H).
+Qed.
+Print Assumptions C17_ble_accepted_in_range.
+
+(** * mDNS TXT records and instance-name labels *)
+
+Theorem C17_mdns_txt_roundtrip : forall kvs : list (list N * list N),
+  Forall good_kv kvs -> txt_decode (txt_encode kvs) = kvs.
+Proof. exact txt_roundtrip. Qed.
+Print Assumptions C17_mdns_txt_roundtrip.
+
+Theorem C17_mdns_number_roundtrip : forall bound v : N,
+  v < bound -> bound <= two64 -> parse_uint bound (dec_print v) = Some v.
+Proof. exact parse_print. Qed.
+Print Assumptions C17_mdns_number_roundtrip.
+
+Theorem C17_mdns_commissionable_record_roundtrip : forall a : comm_adv,
+  comm_adv_valid a = true ->
+  txt_decode (txt_encode (comm_txt a)) = comm_txt a /\
+  txt_scan (comm_txt a) =
+    mkTF (Some (ca_disc a)) (Some (ca_vid a)) (Some (ca_pid a)) (ca_dt a)
+         (if ca_enhanced a then 2 else 1).
+Proof. intros a H. split; [apply comm_txt_roundtrip|apply comm_txt_scan]; exact H. Qed.
+Print Assumptions C17_mdns_commissionable_record_roundtrip.
+
+Theorem C17_mdns_own_filter_finds_device : forall a : comm_adv,
+  comm_adv_valid a = true ->
+  filter_matches (mkCF (Some (ca_disc a)) (Some (ca_disc a / 256)) (Some (ca_vid a))
+                       (Some (ca_pid a)) (ca_dt a) true)
+                 (txt_scan (txt_decode (txt_encode (comm_txt a)))) = true.
+Proof. exact comm_own_filter_matches. Qed.
+Print Assumptions C17_mdns_own_filter_finds_device.
+
+Theorem C17_mdns_hex_id_roundtrip : forall v : N,
+  v < two64 -> parse_hex_u64 (hex16 v) = Some v.
+Proof. exact parse_hex16. Qed.
+Print Assumptions C17_mdns_hex_id_roundtrip.
+
+Theorem C17_mdns_instance_labels : forall fabric node id : N,
+  fabric < two64 -> node < two64 -> id < two64 ->
+  op_label_match fabric node (op_label fabric node) = true /\
+  comm_label_match id (comm_label id) = true /\
+  (forall f' n', op_label_match f' n' (op_label fabric node) = true -> f' = fabric /\ n' = node) /\
+  (forall id', comm_label_match id' (comm_label id) = true -> id' = id).
+Proof.
+  intros f n i Hf Hn Hi. split; [apply op_label_roundtrip; assumption|].
+  split; [apply comm_label_roundtrip; assumption|]. split.
+  - intros f' n'. apply op_label_exact; assumption.
+  - intro id'. apply comm_label_exact; assumption.
+Qed.
+Print Assumptions C17_mdns_instance_labels.
+
 (** * The monitors run on the implementation are implied by the theorems:
     the model's own answers always satisfy them *)
 
@@ -259,6 +453,24 @@ Print Assumptions C17_monitor_manual_dec.
 Theorem C17_monitor_qr_dec : forall s : list N, mon_qr_dec s (qr_decode s) = true.
 Proof. exact mon_qr_dec_model. Qed.
 Print Assumptions C17_monitor_qr_dec.
+
+Theorem C17_monitor_checkin_dec : forall nonce_of aead_enc aead_dec,
+  aead_ideal nonce_of aead_enc aead_dec ->
+  forall p : list N, mon_checkin_dec nonce_of p (checkin_parse nonce_of aead_dec p) = true.
+Proof. exact mon_checkin_dec_i. Qed.
+Print Assumptions C17_monitor_checkin_dec.
+
+Theorem C17_monitor_bdx_dec : forall (receive : bool) (b : list N),
+  bytes b ->
+  mon_init_dec b (init_decode b) = true /\
+  mon_accept_dec receive b (accept_decode receive b) = true.
+Proof. intros r b H. split; [apply mon_init_dec_model|apply mon_accept_dec_model]; exact H. Qed.
+Print Assumptions C17_monitor_bdx_dec.
+
+Theorem C17_monitor_ble_dec : forall advb : list N,
+  bytes advb -> mon_adv_dec (adv_parse advb) (radv_parse advb) = true.
+Proof. exact mon_adv_dec_model. Qed.
+Print Assumptions C17_monitor_ble_dec.
 
 (** * Non-vacuity *)
 
@@ -292,3 +504,26 @@ Example C17_ex_qr :
     [77; 84; 58; 89; 78; 74; 86; 55; 86; 83; 67; 48; 48; 67; 77; 86; 72; 55; 83; 82; 48; 48] /\
   qr_valid (mkQr 0 9050 65279 0 2 2976 34567890) = true.
 Proof. vm_compute. split; reflexivity. Qed.
+
+(** the advertisement of discriminator 0xF00, VID 0xFFF1, PID 0x8000 *)
+Example C17_ex_ble :
+  adv_encode (mkAdv 65521 32768 3840 false) =
+    [2; 1; 6; 11; 22; 246; 255; 0; 0; 15; 241; 255; 0; 128; 0] /\
+  adv_parse [2; 1; 6; 11; 22; 246; 255; 0; 0; 15; 241; 255; 0; 128; 0] =
+    Some (mkAdv 65521 32768 3840 false).
+Proof. vm_compute. split; reflexivity. Qed.
+
+(** "D=3840", "CM=1", "VP=65521+32769" published and read back; SendInit with a 64-bit length *)
+Example C17_ex_mdns_bdx :
+  txt_scan (txt_decode (txt_encode
+    (comm_txt (mkCA 3840 false 65521 32769 None None [] [] 33 None false None)))) =
+    mkTF (Some 3840) (Some 65521) (Some 32769) None 1 /\
+  init_wf (mkInit (mkTc 0 true false false) (mkRc true false true) 1024 0 4294967296 [102] []) = true /\
+  init_encode (mkInit (mkTc 0 true false false) (mkRc true false true) 1024 0 4294967296 [102] []) =
+    [16; 17; 0; 4; 0; 0; 0; 0; 1; 0; 0; 0; 1; 0; 102].
+Proof. vm_compute. repeat split; reflexivity. Qed.
+
+(** the assumptions on the symbolic AEAD are satisfiable (a toy scheme), so the
+    check-in theorems are not vacuous *)
+Example C17_ex_aead_ideal : aead_ideal (fun c => le_bytes 13 c) toy_enc toy_dec.
+Proof. exact toy_aead_ideal. Qed.
